@@ -59,8 +59,10 @@ def determinate(sym):
     return h == 'id' or h.startswith('k')
 
 
-class CInterp(Interp):
-    """every loop must be decided by the (concrete) scenario: no widening, no invariant inference"""
+class ExactMixin:
+    """every loop must be decided by the (concrete) scenario: no widening, no invariant inference; plus one local
+    refinement of the engine: sext(x) & (2^j - 1) of a j-bit value x is the unsigned reading of x (the engine only knows
+    the mask when the operand has an unsigned form)"""
 
     def run_loop(self, fn, L, st, frm, rets):
         self.loops_seen += 1
@@ -69,6 +71,21 @@ class CInterp(Interp):
             raise Unres('the loop at %s in %s is not decided by the scenario within %d iterations'
                         % (L['header'].term.where(), fn.name, self.max_peel))
         return r
+
+    def binop(self, st, op, a, b, inst):
+        if op == 'and' and isinstance(a, IntVal) and isinstance(b, IntVal):
+            for x, m in ((a, b), (b, a)):
+                k = m.const()
+                if k is not None and k > 0 and (k & (k + 1)) == 0 and x.u is None and x.s is not None:
+                    j = k.bit_length()
+                    u = st.conv.get(('u', j, x.s.key()))        # memo of State.force_s: x.s = u - 2^j * carry
+                    if u is not None and j < x.w:
+                        return IntVal(x.w, u, u)
+        return super().binop(st, op, a, b, inst)
+
+
+class CInterp(ExactMixin, Interp):
+    pass
 
 
 class Ids:
@@ -316,7 +333,7 @@ def c_ring_scenarios(rep, repo, tier, mod):
                 V.returns += 1
                 ro = [sp for sp in sps if sp[2] is not None][0][1]
                 body(V, ids, box, T, rv, ro, scen)
-        except Unres as e:
+        except AnalysisBroken as e:
             V.unresolved.append('{%s}: %s' % (scen, e))
 
     for N in sizes(tier):
@@ -463,9 +480,6 @@ def check_ref(V, T, rv, box, esz, slot, key, scen, what):
     V.clause(key, ok, scen, '%s designates %s, the reference queue has slot %d' % (what, got, slot))
 
 
-RXX_COUNTERS = ('r.head', 'r.tail', 'r.size', 'buffer.m_size')
-
-
 def xx_counters(V, mod, T, box, sname, prefix, h, t, N, scen):
     want = {'r.head': h, 'r.tail': t, 'r.size': N, 'buffer.m_size': N}
     check_counters(V, mod, T, box['this'], sname, prefix, want, scen)
@@ -512,7 +526,7 @@ def ringxx_scenarios(rep, repo, tier, mod):
             for (T, rv, sps) in rets:
                 V.returns += 1
                 body(V, ids, box, T, rv, sname, scen)
-        except Unres as e:
+        except AnalysisBroken as e:
             V.unresolved.append('{%s}: %s' % (scen, e))
 
     def value_arg(st, ids, box, pnames, args, fn):
@@ -706,7 +720,7 @@ def get_last_scenarios(rep, repo, tier, mod):
                                 V.clause('get_last:elements-in-order', worst, scen, detail)
                                 check_cells(V, ids, T, box['buf'].id, ESZ, box['cells'], 'get_last:no-slot-written', scen, 'slot')
                                 xx_counters(V, mod, T, box, sname, 'get_last:unchanged', h, t, N, scen)
-                        except Unres as ex:
+                        except AnalysisBroken as ex:
                             V.unresolved.append('{%s}: %s' % (scen, ex))
     V.done()
     return V
@@ -715,9 +729,6 @@ def get_last_scenarios(rep, repo, tier, mod):
 # ----------------------------------------------------------------------------------------------------------------
 # cyclic_buffer<int>: push / operator[] (i-th previous sample) / size / resize / constructor
 # ----------------------------------------------------------------------------------------------------------------
-CY_FIELDS = ('counter.counter', 'counter.size', 'data.m_size', '_size')
-
-
 def cyclic_scenarios(rep, repo, tier, mod):
     Y = 'igris::cyclic_buffer<int'
     rule = 'R-FIFO-CYCLIC'
@@ -750,11 +761,11 @@ def cyclic_scenarios(rep, repo, tier, mod):
             if prep:
                 prep(st, ids, box, args, fn, idx)
         try:
-            it, rets, _a = interpret(mod, names[k], [spec], setup, ctor=ctor, peel=N + 4)
+            it, rets, _a = interpret(mod, names[k], [spec], setup, ctor=ctor, peel=max(Ns) + 4)
             for (T, rv, sps) in rets:
                 V.returns += 1
                 body(V, ids, box, T, rv, sname, scen)
-        except Unres as e:
+        except AnalysisBroken as e:
             V.unresolved.append('{%s}: %s' % (scen, e))
 
     def state(V, T, box, sname, prefix, c, N, filled, scen, same_block=True):
@@ -936,7 +947,7 @@ def ringc_scenarios(rep, repo, tier, mod):
                                     check_cells(V, ids, T, box['data'].id, 1, want, 'read:data-holds-slots-in-order', scen, 'data')
                                     check_cells(V, ids, T, box['buf'].id, 1, cells, 'read:no-slot-written', scen, 'slot')
                                     xx_counters(V, mod, T, box, sname, 'read:advance', h, (t + kk) % N, N, scen)
-                        except Unres as e:
+                        except AnalysisBroken as e:
                             V.unresolved.append('{%s}: %s' % (scen, e))
     for V in Vs.values():
         V.done()
@@ -960,14 +971,8 @@ def _life():
 def life_interp_cls():
     L, I = _life()
 
-    class LInterp(L.LifeInterp):
-        def run_loop(self, fn, Lp, st, frm, rets):
-            self.loops_seen += 1
-            r = self.try_peel(fn, Lp, st, frm, rets)
-            if r is None:
-                raise Unres('the loop at %s in %s is not decided by the scenario within %d iterations'
-                            % (Lp['header'].term.where(), fn.name, self.max_peel))
-            return r
+    class LInterp(ExactMixin, L.LifeInterp):
+        pass
     return LInterp
 
 
@@ -1391,36 +1396,104 @@ def history_rule(rep, repo, rule, function, where, table, Ns, refusal=True):
 
 
 # ----------------------------------------------------------------------------------------------------------------
+EXPLANATION = (
+    ' CONTENT (c03_content.py): identity analysis over a finite partition of the entry states - ring size N in 2..5 (thorough: '
+    '2..7), every (head, tail) pair, every transfer length 0..N+1; counters are constants, so every slot address is a constant '
+    'and every loop runs on concrete bounds (peeled by the interpreter, nothing is executed); the content stays abstract: '
+    'every slot, the value argument and every element of the caller\'s array is a symbol of its own.  At every return the '
+    'identities in the slots, in the caller\'s array and in the result are compared with the reference queue.  R-FIFO-C '
+    '(datastruct/ring.h): ring_putc stores the argument into slot[head_before], changes no other slot, advances head only and '
+    'returns 1; on a full ring it returns 0 and changes nothing; ring_getc returns the byte of slot[tail_before] as 0..255, '
+    'advances tail only, writes no slot; on an empty ring -1 and no change; ring_write / ring_read move exactly min(n, room) / '
+    'min(n, avail) bytes in order, return that count, leave the rest of the ring, of the caller\'s array and the other counter '
+    'alone.  R-FIFO-XX (container/ring.h, ring<int> and ring<char>): push/emplace store the argument into slot[head] (room() > '
+    '0 is a precondition: the typed ring has no refusal), pop advances tail only and changes no slot that stays in the queue, '
+    'clear empties at head, tail()/last()/head_place()/get(i) designate slot[tail] / slot[head-1 mod N] / slot[head] / slot[i], '
+    'get_last(offset, count, from_end) returns count elements, element i being slot[head-1-offset-i mod N] resp. '
+    'slot[head-count-offset+i mod N] (std::vector<int> interpreted as compiled), fixup_index(i) = i mod N for -2N-1 <= i <= 2N+1, '
+    'distance(a,b) = a-b mod N, set_last_index(i) makes slot[i] the newest, write/read as for the C ring.  R-FIFO-CYCLIC '
+    '(cyclic_buffer<int>): push(v) advances the counter modulo N, returns the sample it replaces, stores v there, touches no '
+    'other slot, size() counts min(pushes, N); operator[](i) (both overloads) returns slot[counter-i mod N]; resize(n) and the '
+    'constructor leave an empty buffer of n fresh slots (size() == 0).  R-FIFO-HISTORY: the FIFO induction replayed on the '
+    'transition tables the interpreter produced - from the empty ring every (head, tail) state is reached, a put never lands '
+    'on a slot the reference queue occupies, a get always reads the slot of the oldest element, a full/empty C ring refuses; '
+    'for the cyclic buffer operator[](i) after k pushes designates the slot of the (k-i)-th push for i < min(k, N).  '
+    'R-RINGLIFE (ring<VTr>, cyclic_buffer<VTr>, probe element whose special members are external calls): slot typestate '
+    'RAW/LIVE with the invariant "every slot of the buffer holds an object" (unbounded_array constructs n objects and destroys '
+    'm_size objects): no constructor on a LIVE slot, no destructor / assignment / read on a RAW one, every block deallocated '
+    'once and without LIVE objects, at every return every slot of the current block LIVE; plus the identity of the object in '
+    'every slot (push/emplace: slot[head] holds the argument / T(int), others unchanged; cyclic push returns the replaced '
+    'sample; operator[] returns the i-th previous one).  Not decided: ring sizes above the partition (the code has no '
+    'size-dependent case), push on a full / pop on an empty typed ring (precondition), get_last for a non-trivial element '
+    'type, exception paths, concurrent producers/consumers.')
+
+
 def run_ext(rep, repo, tier):
     """called at the end of c03.run"""
-    mod = witness('w_ring.c', repo)
-    table, Vs = c_ring_scenarios(rep, repo, tier, mod)
-    if not any(V.unresolved for V in Vs.values()):
-        f = mod.fn('ring_putc')
-        history_rule(rep, repo, 'R-FIFO-HISTORY', 'ring_putc/ring_getc', where_of(repo, f), table, sizes(tier))
+    rep.explanation = (rep.explanation or '').replace('FIFO/losslessness over histories is not decided.',
+                                                      'FIFO order and losslessness: see CONTENT.') + EXPLANATION
+    rep.assumptions += ['content rules: igris::ring<T>::push/emplace are called with room() > 0 and pop/tail/last with '
+                        'avail() > 0 (the typed ring has no refusal; nothing in its documentation promises one)',
+                        'content rules: cyclic_buffer::operator[](i) with 0 <= i <= size',
+                        'content rules: the copy/move constructors and assignments of the element type transfer the value '
+                        '(identity) of their source; T() is a default value',
+                        'content rules: get_last relies on the libstdc++ layout of std::vector (begin/end pointers first)']
+    Ns = sizes(tier)
+
+    def section(label, f):
+        """a section that cannot be analysed (vanished anchor, engine limit, internal error) leaves its ':analysed'
+        instances out, so that its floor breaks (exit 2) - but only after the violations found elsewhere were reported"""
+        try:
+            return f()
+        except AnalysisBroken as e:
+            print('NOTE %s: not analysable, no verdict: %s' % (label, e))
+        except Exception as e:          # noqa: an internal error of this module must not hide the verdicts of c03.run
+            import traceback
+            traceback.print_exc()
+            print('NOTE %s: internal error, no verdict: %r' % (label, e))
+        return None
+
+    def part_a():
+        mod = witness('w_ring.c', repo)
+        table, Vs = c_ring_scenarios(rep, repo, tier, mod)
+        if not any(V.unresolved for V in Vs.values()):
+            history_rule(rep, repo, 'R-FIFO-HISTORY', 'ring_putc/ring_getc', where_of(repo, mod.fn('ring_putc')), table, Ns)
+
+    def part_b():
+        modx = witness('w_ringxx.cpp', repo)
+        section('R-FIFO-XX igris::ring<char>', lambda: ringc_scenarios(rep, repo, tier, modx))
+        section('R-FIFO-XX igris::ring<int>::get_last', lambda: get_last_scenarios(rep, repo, tier, modx))
+
+        def cyc():
+            tabley, Vy = cyclic_scenarios(rep, repo, tier, modx)
+            if not any(V.unresolved for V in Vy.values()):
+                f = modx.fn(cxx(modx, 'igris::cyclic_buffer<int', 'push'))
+                cyclic_history(rep, repo, where_of(repo, f), tabley, (1,) + tuple(Ns))
+        section('R-FIFO-CYCLIC', cyc)
+        tablex, Vx = ringxx_scenarios(rep, repo, tier, modx)
+        if not any(V.unresolved for V in Vx.values()):
+            f = modx.fn(cxx(modx, 'igris::ring<int', 'push'))
+            history_rule(rep, repo, 'R-FIFO-HISTORY', 'igris::ring<int>::push/tail/pop', where_of(repo, f), tablex, Ns,
+                         refusal=False)
+
+    def part_c():
+        modl = witness('w_c03_content_ringlife.cpp', repo)
+        rep.units.append('witness/w_c03_content_ringlife.cpp -> igris::ring<VTr>, igris::cyclic_buffer<VTr> (element lifetimes / '
+                         'identities)')
+        section('R-RINGLIFE igris::ring<VTr>', lambda: ringlife_scenarios(rep, repo, tier, modl))
+        section('R-RINGLIFE igris::cyclic_buffer<VTr>', lambda: cyclife_scenarios(rep, repo, tier, modl))
+
+    section('R-FIFO-C', part_a)
+    section('R-FIFO-XX', part_b)
+    section('R-RINGLIFE', part_c)
     rep.floor('R-FIFO-C:analysed', 4)
     rep.floor('R-FIFO-C:content', 30)
-    modx = witness('w_ringxx.cpp', repo)
-    tablex, Vx = ringxx_scenarios(rep, repo, tier, modx)
-    if not any(V.unresolved for V in Vx.values()):
-        f = modx.fn(cxx(modx, 'igris::ring<int', 'push'))
-        history_rule(rep, repo, 'R-FIFO-HISTORY', 'igris::ring<int>::push/tail/pop', where_of(repo, f), tablex, sizes(tier),
-                     refusal=False)
-    ringc_scenarios(rep, repo, tier, modx)
-    get_last_scenarios(rep, repo, tier, modx)
-    tabley, Vy = cyclic_scenarios(rep, repo, tier, modx)
-    if not any(V.unresolved for V in Vy.values()):
-        f = modx.fn(cxx(modx, 'igris::cyclic_buffer<int', 'push'))
-        cyclic_history(rep, repo, where_of(repo, f), tabley, (1,) + tuple(sizes(tier)))
-    modl = compile_ir(os.path.join(WIT, 'w_c03_content_ringlife.cpp'), repo)
-    ringlife_scenarios(rep, repo, tier, modl)
-    cyclife_scenarios(rep, repo, tier, modl)
-    rep.floor('R-RINGLIFE:analysed', 15)
-    rep.floor('R-RINGLIFE:event', 8)
-    rep.floor('R-RINGLIFE:return', 20)
-    rep.floor('R-RINGLIFE:content', 20)
-    rep.floor('R-FIFO-CYCLIC:analysed', 6)
-    rep.floor('R-FIFO-CYCLIC:content', 30)
-    rep.floor('R-FIFO-HISTORY', 12)
     rep.floor('R-FIFO-XX:analysed', 14)
-    rep.floor('R-FIFO-XX:content', 60)
+    rep.floor('R-FIFO-XX:content', 80)
+    rep.floor('R-FIFO-CYCLIC:analysed', 6)
+    rep.floor('R-FIFO-CYCLIC:content', 35)
+    rep.floor('R-FIFO-HISTORY', 2 * len(Ns) + len(Ns) + 1)
+    rep.floor('R-RINGLIFE:analysed', 15)
+    rep.floor('R-RINGLIFE:event', 15)
+    rep.floor('R-RINGLIFE:return', 25)
+    rep.floor('R-RINGLIFE:content', 40)
